@@ -20,6 +20,7 @@ Oracles
 
 import copy
 import io
+import numpy as np
 
 from hypothesis import strategies as st
 
@@ -324,6 +325,17 @@ def _compare_cif_file(o, f, blocks, how, clause_override=None):
                 column = cat[col["name"]]
                 got = column.as_array(str).tolist()
                 o.check_eq(got, want, cl("values_unchanged"), f"{where}/{col['name']!r}")
+                # the other spellings of "a string dtype" give the same strings
+                for spelling, dt in (("np.str_", np.str_), ("'U'", "U"), ("np.dtype(str)", np.dtype(str))):
+                    o.check_eq(
+                        column.as_array(dt).tolist(), want, cl("values_unchanged"), f"{where}/{col['name']!r} as_array({spelling})"
+                    )
+                o.check_eq(
+                    column.as_array(np.str_, masked_value="~").tolist(),
+                    [w if st == 0 else "~" for w, st in zip(want, states)],
+                    cl("values_unchanged"),
+                    f"{where}/{col['name']!r} as_array(np.str_, masked_value='~')",
+                )
                 gmask = [0] * len(column) if column.mask is None else [int(m) for m in column.mask.array.tolist()]
                 o.check_eq(gmask, states, cl("masks_unchanged"), f"{where}/{col['name']!r} mask")
                 if nrow == 1 and len(got) == 1:
@@ -856,6 +868,35 @@ class _SetLabelOutcome(Outcome):
                 self.labels.append(str(n))
 
 
+def _probe_category_constructor(o, fl, model):
+    """A category built from a ``columns`` dict is a mapping of its own: using it neither changes the
+    caller's dict nor another category built from the same dict."""
+    for b in model.values():
+        for cat in b.values():
+            if len(cat.cols) < 2:
+                continue
+            given = {}
+            for k, v in cat.cols.items():
+                if fl.name == "cif":
+                    given[k] = list(v)
+                elif v["mask"] is None:
+                    given[k] = list(v["data"])
+                else:
+                    given[k] = fl.make_column(v)
+            before = [(k, type(v), copy.deepcopy(v) if isinstance(v, list) else id(v)) for k, v in given.items()]
+            first = fl.classes[2](given)
+            second = fl.classes[2](given)
+            keys = list(cat.cols)
+            del first[keys[0]]
+            first["verif_added"] = fl.make_column(cat.cols[keys[1]])
+            after = [(k, type(v), copy.deepcopy(v) if isinstance(v, list) else id(v)) for k, v in given.items()]
+            o.check_eq(after, before, "category_is_its_own_mapping", "the dict given as `columns` after set/delete on the category")
+            o.check_eq(list(second.keys()), keys, "category_is_its_own_mapping", "second category built from the same dict")
+            o.check_eq(list(first.keys()), keys[1:] + ["verif_added"], "category_is_its_own_mapping", "keys after delete + set")
+            o.label("constructor_dict_probe")
+            return
+
+
 def run_history(case, fl):
     from biotite.file import SerializationError
 
@@ -864,6 +905,7 @@ def run_history(case, fl):
     for bi, rawblock in case["init"]:
         model[BLOCK_POOL[bi % len(BLOCK_POOL)]] = _model_block(fl, rawblock)
     real = fl.make_file(model)
+    _probe_category_constructor(o, fl, model)
     lazy = False  # True after a round trip: children of `real` are (partly) unparsed
     mutated_after_lazy = 0
     n_roundtrips = 0
